@@ -55,8 +55,12 @@ Step(c, st, ev) ==
     [] ev.e = "sp" -> st
     [] ev.e = "nl" ->
          LET s1 == [AttachOrDetach(st) EXCEPT !.canAttach = FALSE]
+             k == IF ev.n - 1 < c.keep THEN ev.n - 1 ELSE c.keep
+             m == Len(s1.items)
          IN IF c.keep >= 0 /\ ev.n >= 2 /\ s1.items # <<>>
-            THEN [s1 EXCEPT !.items = Append(@, [t |-> "lb", n |-> IF ev.n - 1 < c.keep THEN ev.n - 1 ELSE c.keep])]
+            THEN IF s1.items[m].t = "lb"                        \* blank lines before and after a separator do not add up
+                 THEN [s1 EXCEPT !.items[m].n = IF @ > k THEN @ ELSE k]
+                 ELSE [s1 EXCEPT !.items = Append(@, [t |-> "lb", n |-> k])]
             ELSE s1
 
 RECURSIVE Process(_, _, _, _)
